@@ -19,7 +19,13 @@ func (src) Seed(int64)   {}
 
 func NewSource(int64) Source { return src{} }
 
-type Rand struct{}
+// Rand mirrors *math/rand.Rand, which is NOT safe for concurrent use: every method touches a state word
+// through an access the race detector instruments (the package-level functions are safe and touch nothing).
+type Rand struct{ state uint64 }
+
+//go:noinline
+//verif:instrumented
+func (r *Rand) touch() { r.state++ }
 
 func New(Source) *Rand { return &Rand{} }
 
@@ -61,19 +67,17 @@ func Read(p []byte) (int, error) {
 	return len(p), nil
 }
 
-func (*Rand) Seed(int64)           {}
-func (*Rand) Intn(n int) int       { return Intn(n) }
-func (*Rand) Int63n(n int64) int64 { return Int63n(n) }
-func (*Rand) Int31n(n int32) int32 { return Int31n(n) }
-func (*Rand) Int() int             { return Int() }
-func (*Rand) Int63() int64         { return Int63() }
-func (*Rand) Int31() int32         { return Int31() }
-func (*Rand) Uint32() uint32       { return Uint32() }
-func (*Rand) Uint64() uint64       { return Uint64() }
-func (*Rand) Float64() float64     { return Float64() }
-func (*Rand) Float32() float32     { return Float32() }
-func (*Rand) Perm(n int) []int     { return Perm(n) }
-func (*Rand) Shuffle(n int, swap func(i, j int)) {
-	Shuffle(n, swap)
-}
-func (*Rand) Read(p []byte) (int, error) { return Read(p) }
+func (r *Rand) Seed(int64)                         { r.touch() }
+func (r *Rand) Intn(n int) int                     { r.touch(); return Intn(n) }
+func (r *Rand) Int63n(n int64) int64               { r.touch(); return Int63n(n) }
+func (r *Rand) Int31n(n int32) int32               { r.touch(); return Int31n(n) }
+func (r *Rand) Int() int                           { r.touch(); return Int() }
+func (r *Rand) Int63() int64                       { r.touch(); return Int63() }
+func (r *Rand) Int31() int32                       { r.touch(); return Int31() }
+func (r *Rand) Uint32() uint32                     { r.touch(); return Uint32() }
+func (r *Rand) Uint64() uint64                     { r.touch(); return Uint64() }
+func (r *Rand) Float64() float64                   { r.touch(); return Float64() }
+func (r *Rand) Float32() float32                   { r.touch(); return Float32() }
+func (r *Rand) Perm(n int) []int                   { r.touch(); return Perm(n) }
+func (r *Rand) Shuffle(n int, swap func(i, j int)) { r.touch(); Shuffle(n, swap) }
+func (r *Rand) Read(p []byte) (int, error)         { r.touch(); return Read(p) }
